@@ -145,6 +145,10 @@ def plan(tier, seed):
         jobs.append({'space': 'S6c', 'period': p, 'weight': 2 ** p * 3000})
     for i in range(16):
         jobs.append({'space': 'S8', 'shard': i, 'of': 16, 'weight': 4000})
+    for n in range(1, (7 if tier == 'quick' else 9) + 1):
+        jobs.append({'space': 'S10', 'len': n,
+                     'weight': lang.count_sentences(n) * 2 ** ((n + 1) // 2)
+                     * 2})
     n9 = len(S9_PAIRS) if tier == 'quick' else len(S9_PAIRS + S9_MORE)
     for i in range(n9):
         for first in 'AB':
@@ -267,6 +271,29 @@ def run_S1(cx, job):
     for tokens in core.shard_iter(iter(sents), job['shard'], job['of']):
         text, _, _ = _sentence_case(cx, 'S1', tokens)
         cx.acc.sample('S1', text)
+
+
+def run_S10(cx, job):
+    """S1 once more with every logger of the library at DEBUG (a service run
+    with debug=True): what is logged is formatted, what is decided is the
+    same."""
+    import logging
+
+    class H(logging.Handler):
+        def emit(self, record):
+            record.getMessage()
+    lg = logging.getLogger('oslo_policy')
+    lg.handlers[:] = [H()]
+    lg.setLevel(logging.DEBUG)
+    for name in list(logging.root.manager.loggerDict):
+        if name.startswith('oslo_policy.'):
+            logging.getLogger(name).setLevel(logging.NOTSET)
+    try:
+        for tokens in lang.sentences(job['len']):
+            text, _, _ = _sentence_case(cx, 'S10', tokens)
+        cx.acc.sample('S10', text)
+    finally:
+        core.quiet_logging()
 
 
 # S9: two threads parse and decide DIFFERENT rules at the same time (the parser
